@@ -10,6 +10,7 @@ import contextlib
 import importlib
 
 import engine
+import keeps
 
 engine.use_repo()
 
@@ -39,7 +40,46 @@ def _guard(mod):
                 import traceback
                 raise AdapterError("%s.%s: %r\n%s" % (mod.__name__, _n, e, traceback.format_exc()[-1500:]))
         setattr(mod, name, safe)
+    _keeps_hook(mod)
     mod._steptie_guarded = True
+
+
+_ACTIVE = [None]      # module name of the tie of the run in progress (one run at a time per process)
+
+
+def _keeps_hook(mod):
+    """C07 (task c07keeps): every tie's result line is extended by the digest of the event-set connector attributes and
+    of the pending queue after the concrete step (`keeps.digest`), followed by the digest before it — which is the model's
+    answer: the strategy models keep this state (Properties/C07_Strategies.lean). `compare` below checks both parts."""
+    rw, rr = getattr(mod, "render_world", None), getattr(mod, "render_result", None)
+    if rw is None or rr is None:
+        return
+
+    def render_world(strat, *a, **k):
+        line = rw(strat, *a, **k)
+        if _ACTIVE[0] != mod.__name__:
+            # a sub-strategy object rendered by another strategy's tie (distributed ties its sub-strategies through
+            # their own modules): its world is a throw-away virtual world, not the run's state
+            strat._keeps_before = None
+            return line
+        try:
+            strat._keeps_before = keeps.digest(strat)
+        except Exception as e:
+            raise AdapterError("%s.keeps.digest: %r" % (mod.__name__, e))
+        return line
+
+    def render_result(strat, *a, **k):
+        out = rr(strat, *a, **k)
+        before = getattr(strat, "_keeps_before", None)
+        if before is None:
+            return out
+        try:
+            after = keeps.digest(strat)
+        except Exception as e:
+            raise AdapterError("%s.keeps.digest: %r" % (mod.__name__, e))
+        strat._keeps_before = None
+        return out + keeps.SEP + after + keeps.SEP0 + before
+    mod.render_world, mod.render_result = render_world, render_result
 
 
 class _Null:
@@ -67,11 +107,13 @@ class _Tagged:
         self.inner, self.name = inner, name
 
     def __enter__(self):
+        _ACTIVE[0] = self.name
         box = self.inner.__enter__()
         self.box = box if box is not None else self.inner
         return self
 
     def __exit__(self, *a):
+        _ACTIVE[0] = None
         return self.inner.__exit__(*a)
 
     def _get(self, key):
@@ -116,4 +158,8 @@ def compare(impl, model):
     if name == "adapter":
         return True, "the step tie could not render the world for the model: " + rest
     mod = importlib.import_module(name)
-    return True, mod.compare(None, rest, model)
+    core, after, before = keeps.split(rest)
+    d = mod.compare(None, core, model)
+    if d is None and after is not None:
+        d = keeps.diff(after, before)
+    return True, d
